@@ -9,7 +9,7 @@ LEVEL = "proof"
 def run(ctx, out):
     dcheck.run_property(ctx, out, "C11", "mon_c11_all", n_quick=250, n_thorough=4000,
                         gen_kw=dict(ws_share=0.35, batches=0.05, malformed=0.06, victims=2, accept_faults=True, timers=True, faults=True),
-                        directed=directed.regressions() + directed.accept_queue() + directed.faulty_caller() + directed.faulty_caller_batched() + directed.full_buffer_request() + directed.ws_control_under_faults(own=False))
+                        directed=directed.regressions() + directed.accept_queue() + directed.faulty_caller() + directed.faulty_caller_batched() + directed.full_buffer_request() + directed.ws_control_under_faults(own=False) + [s for s in directed.write_error_after_progress() if "-subscriber-" in s.name])
     # component level: the real dispatcher and the real accept loop against their Lean models
     from vlib import accept_tie, evloop_tie
     evloop_tie.run_evloop_tie(ctx, out)
